@@ -180,7 +180,8 @@ TxEndpoint(r, h, k) ==
             <<"C06.NeverRetxAcked", IsRetx(e, s), R_C06_NeverRetxAcked(e, s)>>,
             <<"C17.NothingAfterFin", e.fin.seq >= 0 /\ e.fin.own, R_C17_NothingAfterFin(e, s)>> }
         fin == IF ~isFin THEN {} ELSE {
-            <<"C17.FinSeq", TRUE, R_C17_FinSeq(e, s, abort)>>,
+            \* (the FIN clauses are about an endpoint closing on its own initiative, or aborting)
+            <<"C17.FinSeq", abort \/ e.peerFin < 0 \/ (e.fin.seq >= 0 /\ e.fin.own), R_C17_FinSeq(e, s, abort)>>,
             <<"C17.FinAfterData", ~abort /\ e.peerFin < 0 /\ e.fin.seq < 0, R_C17_FinAfterData(e)>> }
         pos == IF isData /\ Len(r.runs) >= 1 THEN r.runs[1][1] ELSE -1
         first == isData /\ (~Known(e, s) \/ IsSplit(e, s, r.plen))
@@ -234,7 +235,9 @@ Xmit(r) ==
                 retx == ~isFin /\ ~first
                 isRto == r.tag = "rto"
                 ordinary == ~r.probe
-                rules == IF isFin THEN { <<"C06.RtoRange", TRUE, R_C06_RtoRange(r.rto)>> } ELSE {
+                \* once the peer's FIN has been accepted the connection is closing in both directions (this
+                \* implementation fails the local writer and drops unsent data): the sending rules no longer apply
+                rules == IF isFin \/ e.peerFin >= 0 THEN { <<"C06.RtoRange", TRUE, R_C06_RtoRange(r.rto)>> } ELSE {
                     <<"C05.WindowRespected", first, R_C05_WindowRespected(e, r.recovering)>>,
                     <<"C05.ZeroWindowSilence", first, R_C05_ZeroWindowSilence(e, r.recovering)>>,
                     <<"C05.SlowStartBound", first, R_C05_SlowStartBound(e, r.mss)>>,
